@@ -532,6 +532,7 @@ TreePlan generate(sim::Rng& g) {
         m.dir = (int)g.below((uint64_t)p.nDirs);
         m.path = randPath();
         m.name = names[g.below(12)];
+        if (g.chance(0.08)) { m.path = {"bloch", "lang"}; m.name = "Object"; }
         if (i > 0 && g.chance(0.35)) {  // shadow candidate: same package path and name as an earlier module, elsewhere
             const Module& o = p.modules[g.below(p.modules.size())];
             m.path = o.path;
@@ -561,6 +562,17 @@ TreePlan generate(sim::Rng& g) {
             for (auto& e : p.modules[i].imports)
                 if (e.pkg == im.pkg && e.symbol == im.symbol && e.wildcard == im.wildcard) same = true;
             if (!same) p.modules[i].imports.push_back(im);
+        }
+    }
+    // the implicit root object may have imports of its own (they must still precede it in the merged program)
+    for (size_t i = 0; i < p.modules.size(); ++i) {
+        Module& m = p.modules[i];
+        if (m.name == "Object" && m.path.size() == 2 && m.path[0] == "bloch" && m.path[1] == "lang" && m.imports.empty() && i + 1 < p.modules.size() && g.chance(0.6)) {
+            const Module& t = p.modules[i + 1 + g.below(p.modules.size() - i - 1)];
+            Import im;
+            im.pkg = t.path;
+            im.symbol = t.name;
+            m.imports.push_back(im);
         }
     }
     p.entry = (int)g.below(std::max<size_t>(1, p.modules.size() / 2));
